@@ -96,6 +96,7 @@ package controllers
 
 //@ func package-operator.run/internal/controllers.(*PhaseReconciler).ReconcilePhase
 //@   requires [C03] !failedSoFar()
+//@   requires [C11] len(phase.Class) == 0
 //@   ghost failedSoFar() := old(failedSoFar()) || err != nil || !(len(res.PhaseName) == 0 && len(res.FailedProbes) == 0)
 //@   ensures [C03] failedSoFar() == (old(failedSoFar()) || err != nil || !(len(res.PhaseName) == 0 && len(res.FailedProbes) == 0))
 //@   loop 1 invariant 0 <= idx && failedSoFar() == old(failedSoFar())
@@ -129,7 +130,8 @@ package controllers
 //@   loop 1 invariant gomem_unchanged()
 //@   ensures gomem_unchanged()
 
-//@ props C04
+//@ props C04,C18
 //@ func package-operator.run/internal/controllers.FreeCacheAndRemoveFinalizer
 //@   sink RemoveFinalizer:Client.Patch#1 requires [C04] objid(arg1) == objid(obj)
+//@   sink RemoveFinalizer:Client.Patch#1 requires [C18] freed(obj)
 //@   ensures tdPending() == old(tdPending())
